@@ -15,7 +15,7 @@ import (
 	"verif/harness/sm"
 )
 
-const ruleC11 = "documents with 1-5 fields whose values nest to depth <= 4 and include int64/uint64 extremes, -0.0, +-MaxFloat64, denormals, empty strings/maps/slices, non-UTF-8 strings and times with odd zone offsets and nanoseconds inside arrays and inside objects inside arrays; written through Insert, Save, ReplaceById, UpdateById and Update on bbolt (on disk) and badger, read back with FindById and FindAll, then again after Close + Open (on-disk backend); also the pure document.Encode -> document.Decode round trip. Oracle: type-strict deep equality with the written document (int64 != uint64 != float64, floats bit-exact, times equal in instant and zone offset, nil slice = empty slice). An evaluation is one document round trip; non-trivial when the document nests >= 2 levels or contains a time, a uint64, an integer beyond 2^53 or a non-UTF-8 string; distinct = distinct documents."
+const ruleC11 = "documents with 1-5 fields whose values nest to depth <= 4 and include int64/uint64 extremes, -0.0, +-MaxFloat64, denormals, empty strings/maps/slices, non-UTF-8 strings and times (1970-2200, 1678-2262, and far away: year 1, 1066, 1600, 2300, 9999) with odd zone offsets and nanoseconds inside arrays and inside objects inside arrays; written through Insert, Save, ReplaceById, UpdateById and Update on bbolt (on disk) and badger, read back with FindById and FindAll, then again after Close + Open (on-disk backend); also the pure document.Encode -> document.Decode round trip. Oracle: type-strict deep equality with the written document (int64 != uint64 != float64, floats bit-exact, times equal in instant and zone offset, nil slice = empty slice). An evaluation is one document round trip; non-trivial when the document nests >= 2 levels or contains a time, a uint64, an integer beyond 2^53 or a non-UTF-8 string; distinct = distinct documents."
 
 func c11Session(backend string) (*sm.Session, error) { return sm.NewSession("C11", "c11", backend) }
 
@@ -85,6 +85,9 @@ func interesting(v interface{}, cl map[string]bool) {
 		if _, off := x.Zone(); off%60 != 0 {
 			cl["time-odd-zone"] = true
 		}
+		if x.Year() < 1678 || x.Year() > 2262 {
+			cl["time-outside-unixnano-range"] = true
+		}
 	case uint64:
 		cl["uint64"] = true
 		if x > 1<<53 {
@@ -142,8 +145,8 @@ func validUTF8(s string) bool {
 func TestC11(t *testing.T) {
 	col := collector("C11", ruleC11)
 	backends := []string{run.Bbolt, run.Bbolt, run.BadgerMem}
-	mixed := gen.ValCfg{NonUTF8: true, LongStr: true, MaxDepth: 4}
-	wide := gen.ValCfg{NonUTF8: true, Wide: true, MaxDepth: 4}
+	mixed := gen.ValCfg{NonUTF8: true, LongStr: true, MaxDepth: 4, TimeWide: true, TimeFar: true}
+	wide := gen.ValCfg{NonUTF8: true, Wide: true, MaxDepth: 4, TimeWide: true, TimeFar: true}
 	names := []string{"x", "y", "n", "s", "t", "deep", ""}
 	check(t, "C11", cases(5000, 100000), 0, func(rt *rapid.T) {
 		backend := rapid.SampledFrom(backends).Draw(rt, "backend")
